@@ -252,6 +252,10 @@ def enum_setup_faults(tier):
             yield c
             if c["transport"] == "ble":
                 yield dict(c, pieces=60, att=100)
+    # replies that carry an item the step does not know in front of the 384-byte public value / the proof (to be ignored: B and M2 arrive whole)
+    for c in _c03("enum_strangers")(tier):
+        if c["fault"][0] in ("none", "m4-flip"):
+            yield c
 
 
 SPEC = Property(
